@@ -1,6 +1,172 @@
-import MgProof.C05.Lemmas
-import MgProof.C05.TsInv
-import MgProof.C05.SowrInv
+import MgProof.C05.TsStep
 import MgProof.C05.RingInv
+import MgProof.C05.SowrInv
+import MgModel.C05.TsOrig
+/-!
+# C05 — concurrent memory pools never hand out a block that is still owned
+
+Property theorems. All of them quantify over every schedule of every length
+(`Conc.Reach step init s`: `s` is reachable from the initial state by some sequence of
+steps, one step = one shared-memory access of one thread), every number of threads and
+every client program (lists of `a p f g t u x X` operations, see `MgModel.C05.Client`).
+Legal histories are recognised by ghost monitors of the models: `illegal = 0` (no free of a
+block the caller does not own), `misuse = 0` (the pool's threading contract was respected).
+`double` counts allocations that returned a block that was owned at that moment.
+-/
 namespace MgProof.C05
+open MgModel.Conc MgModel.C05
+
+/-! ## thread-safe pool (repaired algorithm, `fixes/C05-ts-pool-alloc-lock.patch`) -/
+
+/-- **Clause 1, ts pool.** For every capacity `2^k`, every number of threads, every client
+program and every schedule: as long as the history is legal, no allocation has returned a
+block that was still owned (between the return of an allocation and the call of `free`). -/
+theorem ts_no_double_handout (k n : Nat) (progs : List (List Op)) (s : Ts.St)
+    (hr : Reach Ts.step (Ts.mkInit (2 ^ k) n progs) s) (hl : s.g.illegal = 0) :
+    s.g.double = 0 := by
+  obtain ⟨_, d, _⟩ := Ts.reach_inv hr hl
+  exact d.dbl
+
+/-- **Clause 1, ts pool, state form.** In every reachable legal state the blocks owned by
+clients are exactly the blocks the pool regards as handed out (`loc = client`), the `c`
+ring slots from `alloc_idx` hold pairwise distinct blocks, none of them owned. -/
+theorem ts_ring_blocks_free_and_distinct (k n : Nat) (progs : List (List Op)) (s : Ts.St)
+    (hr : Reach Ts.step (Ts.mkInit (2 ^ k) n progs) s) (hl : s.g.illegal = 0) :
+    ∃ c, 1 ≤ c ∧ c ≤ s.cap ∧ c = Ts.poolCount s ∧
+      (∀ j, j < s.cap → Ts.valid s.cap s.allocIdx c j → s.g.owned (s.ptrs j) = false ∧ s.ptrs j < s.cap) ∧
+      (∀ j j', j < s.cap → j' < s.cap → Ts.valid s.cap s.allocIdx c j → Ts.valid s.cap s.allocIdx c j' →
+        s.ptrs j = s.ptrs j' → j = j') := by
+  obtain ⟨c, d, _⟩ := Ts.reach_inv hr hl
+  refine ⟨c, d.c1.1, d.c1.2, d.cnt, ?_, d.inj⟩
+  intro j hj hv
+  obtain ⟨h1, h2⟩ := d.vl j hj hv
+  refine ⟨?_, h2⟩
+  cases h : s.g.owned (s.ptrs j) with
+  | false => rfl
+  | true => have := (d.own _).mp h; rw [h1] at this; cases this
+
+/-- **Clause 2, ts pool (exhaustion only when exhausted).** `spuriousNull` counts allocations
+that returned NULL although more than the one slack block was in the pool when `free_idx`
+was loaded (the linearisation point of the failing allocation). It stays 0: NULL is only
+reported when at most one block (the slack the ring keeps by design) is in the pool, i.e.
+`cap - 1` blocks are outstanding. Hence a history that keeps at most `cap - 2` blocks
+outstanding is never refused. -/
+theorem ts_null_only_when_exhausted (k n : Nat) (progs : List (List Op)) (s : Ts.St)
+    (hr : Reach Ts.step (Ts.mkInit (2 ^ k) n progs) s) (hl : s.g.illegal = 0) :
+    s.spuriousNull = 0 := by
+  obtain ⟨_, d, _⟩ := Ts.reach_inv hr hl
+  exact d.spn
+
+/-- **Clause 2, ts pool (freed blocks become allocatable).** The pool never loses a block:
+the number of blocks in the pool's ring is `free_idx - alloc_idx` (cyclically, `cap` when
+equal) and the two spinlocks are free whenever no thread is inside the pool, so a
+sequential caller always finds the freed blocks again. -/
+theorem ts_ring_accounts_for_pool (k n : Nat) (progs : List (List Op)) (s : Ts.St)
+    (hr : Reach Ts.step (Ts.mkInit (2 ^ k) n progs) s) (hl : s.g.illegal = 0) :
+    s.freeIdx = (if s.allocIdx + Ts.poolCount s < s.cap then s.allocIdx + Ts.poolCount s
+                 else s.allocIdx + Ts.poolCount s - s.cap) ∧
+    1 ≤ Ts.poolCount s := by
+  obtain ⟨c, d, _⟩ := Ts.reach_inv hr hl
+  have := d.cnt; subst this
+  exact ⟨d.fi, d.c1.1⟩
+
+/-- mutual exclusion of allocators (and of freers) in the repaired pool -/
+theorem ts_allocators_serialised (k n : Nat) (progs : List (List Op)) (s : Ts.St)
+    (hr : Reach Ts.step (Ts.mkInit (2 ^ k) n progs) s) (hl : s.g.illegal = 0) (t t' : Nat)
+    (h : Ts.inA (s.pc t) = true) (h' : Ts.inA (s.pc t') = true) : t = t' := by
+  obtain ⟨_, _, p⟩ := Ts.reach_inv hr hl
+  exact p.aex t t' h h'
+
+/-- non-vacuity: a legal reachable state of the ts pool (capacity 2, two threads): thread 1 was
+refused while thread 0 held the only usable block, thread 0 freed it, thread 1 then got block 1
+and `alloc_idx` has wrapped -/
+example : ∃ s, Reach Ts.step (Ts.mkInit (2 ^ 1) 2 [[.a, .f], [.a, .a]]) s ∧ s.g.illegal = 0 ∧
+    s.g.owned 1 = true ∧ s.g.owned 0 = false ∧ s.freeIdx = 1 ∧ s.allocIdx = 0 :=
+  ⟨_, reach_runSched Ts.step _ _ Reach.init
+      (List.replicate 8 { tid := 0 } ++ List.replicate 8 { tid := 1 } ++ List.replicate 7 { tid := 0 } ++
+       List.replicate 10 { tid := 1 }), by decide, by decide, by decide, by decide, by decide⟩
+
+/-! ## the original lock-free allocation is unsafe (negation witnesses) -/
+
+/-- the interleaving found on the real code before the repair: thread 0 is preempted between
+reading `ptrs[alloc_idx]` and its compare-exchange while thread 1 cycles the ring -/
+def abaProgs : List (List Op) := [[.a], [.a, .a, .a, .g, .g, .a]]
+def abaSched : List Tok :=
+  List.replicate 4 { tid := 0 } ++ List.replicate 37 { tid := 1 } ++ [{ tid := 0 }]
+
+/-- **The full safety statement is false for the original algorithm (ABA on the masked
+`alloc_idx`).** Capacity 4, two threads, a legal history: block 0 is returned to thread 0
+while thread 1 still owns it. -/
+theorem ts_orig_double_handout_aba :
+    ∃ s, Reach TsOrig.step (TsOrig.mkInit 4 2 abaProgs) s ∧ s.g.illegal = 0 ∧ s.g.double = 1 :=
+  ⟨_, reach_runSched TsOrig.step _ _ Reach.init abaSched, by decide, by decide⟩
+
+def staleProgs : List (List Op) := [[.a, .a], [.a, .a, .a, .f, .a, .f, .a]]
+def staleSched : List Tok :=
+  List.replicate 22 { tid := 1 } ++ List.replicate 4 { tid := 0 } ++ List.replicate 23 { tid := 1 } ++
+  List.replicate 12 { tid := 0 }
+
+/-- **Second witness (unsynchronised `cached_free_pos`).** Thread 0 stores a stale
+`free_idx` into `cached_free_pos`; `alloc_idx` overtakes `free_idx` and block 2, owned by
+thread 1, is handed out again. -/
+theorem ts_orig_double_handout_stale_cache :
+    ∃ s, Reach TsOrig.step (TsOrig.mkInit 4 2 staleProgs) s ∧ s.g.illegal = 0 ∧ s.g.double = 1 :=
+  ⟨_, reach_runSched TsOrig.step _ _ Reach.init staleSched, by decide, by decide⟩
+
+/-- so "every legal reachable state has `double = 0`" does NOT hold for the original algorithm -/
+theorem ts_orig_not_safe :
+    ¬ ∀ (n : Nat) (progs : List (List Op)) (s : TsOrig.St),
+        Reach TsOrig.step (TsOrig.mkInit 4 n progs) s → s.g.illegal = 0 → s.g.double = 0 := by
+  intro h
+  obtain ⟨s, hr, hl, hd⟩ := ts_orig_double_handout_aba
+  have := h 2 abaProgs s hr hl
+  omega
+
+/-! ## ring pool -/
+
+/-- **Clause 1, ring pool.** One allocating thread calling `muggle_ring_memory_pool_alloc`
+(`locked = false`, the contract monitored by `misuse`) or any number of threads calling
+`muggle_ring_memory_pool_threadsafe_alloc` (`locked = true`), any number of freeing threads,
+every schedule: no allocation returns a block that is still owned. -/
+theorem ring_no_double_handout (cap n : Nat) (locked : Bool) (progs : List (List Op)) (s : Ring.St)
+    (hr : Reach Ring.step (Ring.mkInit cap n locked progs) s) (hl : s.g.illegal = 0) (hm : s.misuse = 0) :
+    s.g.double = 0 :=
+  (Ring.reach_inv hr ⟨hl, hm⟩).dbl
+
+/-- **Clause 1, ring pool, state form.** A block whose `in_use` flag is clear is in the pool
+(or was just seen free by the one thread inside `alloc`); every owned block has its flag set,
+so the allocator skips it. -/
+theorem ring_owned_blocks_flagged (cap n : Nat) (locked : Bool) (progs : List (List Op)) (s : Ring.St)
+    (hr : Reach Ring.step (Ring.mkInit cap n locked progs) s) (hl : s.g.illegal = 0) (hm : s.misuse = 0)
+    (b : Nat) (ho : s.g.owned b = true) : s.inUse b ≠ 0 := by
+  have c := Ring.reach_inv hr ⟨hl, hm⟩
+  intro h0
+  have hc := (c.own b).mp ho
+  rcases c.use b h0 with h | ⟨t, h⟩ <;> (rw [hc] at h; cases h)
+
+/-- with the spin-locked entry point the program never breaks the threading contract: the
+`misuse` monitor stays 0 for every program, so `ring_no_double_handout` needs no hypothesis on it -/
+theorem ring_locked_no_misuse (cap n : Nat) (progs : List (List Op)) (s : Ring.St)
+    (hr : Reach Ring.step (Ring.mkInit cap n true progs) s) : s.misuse = 0 ∧ s.locked = true := by
+  refine Reach.inv (fun s => s.misuse = 0 ∧ s.locked = true) ⟨rfl, rfl⟩ ?_ s hr
+  intro s t s' ev ⟨h1, h2⟩ hs
+  unfold Ring.step at hs
+  simp only [] at hs
+  split at hs
+  · simp at hs
+  split at hs
+  all_goals (try (simp at hs; done))
+  all_goals (try (injection hs with hs; injection hs with hs _; subst hs; exact ⟨h1, h2⟩))
+  all_goals (try (split at hs))
+  all_goals (try (simp at hs; done))
+  all_goals (try (split at hs))
+  all_goals (try (simp at hs; done))
+  all_goals (try (injection hs with hs; injection hs with hs _; subst hs; simp_all [Ring.finish]))
+
+/-- non-vacuity: a legal reachable state of the ring pool (two spin-locked allocators) -/
+example : ∃ s, Reach Ring.step (Ring.mkInit 2 2 true [[.a], [.a, .f]]) s ∧ s.g.illegal = 0 ∧ s.misuse = 0 ∧
+    s.g.owned 0 = true ∧ s.inUse 1 = 0 :=
+  ⟨_, reach_runSched Ring.step _ _ Reach.init
+      ((List.replicate 10 { tid := 0 }) ++ (List.replicate 12 { tid := 1 })), by decide, by decide, by decide, by decide⟩
+
 end MgProof.C05
